@@ -311,7 +311,11 @@ func (m *MetricMapper) InitFromYAMLString(fileContents string) error {
 				mappings = append(mappings, mapping.Match)
 			}
 		}
-		n.FSM.BacktrackingNeeded = fsm.TestIfNeedBacktracking(mappings, n.FSM.OrderingDisabled, m.Logger)
+		// The pairwise test misses rule sets in which a literal branch can
+		// dead-end (a.*.* next to a.b.c: a.b.d took the literal b and was
+		// never matched), so also look at the FSM that was actually built.
+		n.FSM.BacktrackingNeeded = fsm.TestIfNeedBacktracking(mappings, n.FSM.OrderingDisabled, m.Logger) ||
+			n.FSM.HasAmbiguousTransitions()
 
 		m.FSM = n.FSM
 		m.doRegex = n.doRegex
